@@ -50,6 +50,11 @@ CHECKS = {
         text="Rewrites: for every machine of families W (random mix of spellings over every construct) and T/H/D/S/R/G/E/X/V/A and every rewrite set in {none, all, singletons, random subsets; thorough: all pairs} TLC checks Norm(Apply(J, rs)) = Norm(J) on the spec and emits the respelt config; the harness requires nf_lib(respelt) = nf_lib(original) = Norm(original), the same final configuration after a fixed probe, and replays every TLC edge of the original machine's behaviour graph on the respelt machine's real sync/async engine (state and full log). Corruptions: every node x 11 representative wrong-typed values (quick: a 1/stride sample of nodes); TLC classifies reject / lazy / either / accept(+Norm); observed: raw error = violation always, silent acceptance = violation when reject is demanded, Norm compared when accepted. Negative family: 15 uninterpretable configs driven to first use must raise an XStateMachineError subclass.",
         design="DESIGN.md section 8 C18",
         note="Trusted: TLC; the tokeniser and nf_lib reader of harness/frontend.py; the probe (sync engine, all-implementing logic, start + two rounds of every declared event). 'reject' is demanded only for shapes without documented meaning; documented coercions are class 'either'. 'Naming the offender' is measured (evidence: library_errors_naming_offender), not enforced."),
+    "C19": dict(
+        technique="abstract machine definitions rendered as the JSON they denote and through the functional / class / builder styles; TLC computes the denotation Norm(J(A)) (spec/Frontend.tla) and the behaviour graph of J(A) (spec/SCCore.tla); every style-built machine is read back and compared with Norm, and every edge of the graph is replayed on it; spec/Bind.tla (References(Norm(J)), Answers, Outcome) enumerated by TLC over offered-callable subsets and bound to create_machine with logic_modules / logic_providers / MachineLogic subclass; built-in override cases run on both engines",
+        text="(a) family P (random trees with parallel/final states, Transition objects incl. internal/reenter/guards, on= shorthand, always, on_done, root properties, tags, meta; a quarter with one bare state name at several depths): nf_lib(style-built) = Norm(J(A)) for the three styles, and all TLC edges of J(A) replayed on each style-built machine (state + full log). (b) two builds from one definition: running or mutating one leaves the other and later builds unchanged. (c) Bind.tla: for every offered subset (all, each-one-missing, random; thorough: all 2^n) the demanded outcome (bound / ImplementationMissingError at creation) and the admissible callable per referenced name (exact or camelCase spelling; choose branches, spawn_ directives, composite guards, private names) vs. the real discovery; subclass methods must bind under the config's spelling. (d) every built-in action alias x explicit/module x sync/async, and the stateIn guard: the user's implementation runs, the built-in does not.",
+        design="DESIGN.md section 8 C19",
+        note="Trusted: TLC; the harness renderer of the denoted JSON (harness/pyapi.py) and its camelCase converter; the recorder. History states and after/invoke are part of the JSON passthrough of these styles and are covered by C18's family W rather than family P."),
     "C20": dict(
         technique="TLC model checking with a descriptor order defined independently of the implementation-shaped matcher (specificity ranks), over a family of key sets x event types incl. synthetic events and null transitions; edge replay + trace validation",
         text="Prop C20 computes, for every observed selection, the nominee of each active leaf using its own specificity order (exact, partial by decreasing prefix length, wildcard; synthetic done./error./after./xstate. types exact only; a null transition consumes the event at that state) and requires the selection to equal it. Family E: child/parent/root key subsets from a universe of exact, partial, wildcard, look-alike and synthetic keys with guards and null entries; every event type from every reachable state and guard valuation.",
